@@ -28,6 +28,34 @@ SUBCLASS_CASES = [
     ("dict[str,int] <- OrderedDict", dict[str, int], collections.OrderedDict([(MyStr("k"), IE.TWO)])),
     ("list[str] <- tuple of str subclass", list[str], (MyStr("a"), "b")),
 ]
+import dataclasses
+import datetime
+import re
+
+
+class Color(enum.Enum):
+    RED = "red"
+
+
+@dataclasses.dataclass
+class Holder:
+    """a structured member whose field happens to be called like an Enum attribute"""
+    value: datetime.date
+
+
+@dataclasses.dataclass
+class Rule:
+    """... and one called like an attribute of re.Pattern"""
+    pattern: datetime.date
+
+
+# unions whose earlier member's routine reads an attribute (Enum.value, Pattern.pattern) that a later member also has
+UNION_CASES = [
+    ("Color|Holder <- Holder", typing.Union[Color, Holder], Holder(datetime.date(2020, 1, 1))),
+    ("Color|Holder <- Color", typing.Union[Color, Holder], Color.RED),
+    ("Pattern|Rule <- Rule", typing.Union[re.Pattern, Rule], Rule(datetime.date(2020, 1, 1))),
+    ("list[Color|Holder]", list[typing.Union[Color, Holder]], [Holder(datetime.date(2020, 1, 1)), Color.RED]),
+]
 NON_MEMBERS = [(typing.Literal["a", 2, None], "b"), (typing.Literal[1, "x"], 3), (list[typing.Literal["a", "b"]], ["a", "c"]),
                (dict[typing.Literal["a"], int], {"z": 1})]
 
@@ -90,7 +118,7 @@ def search(stop_at=1):
     clear_typelib_caches()
     fails, n = [], 0
     cases = [(name, T, v) for name, T, vs in tp.pool() if not has_bytes(T) and name != "int|str" for v in vs]
-    cases += SUBCLASS_CASES
+    cases += SUBCLASS_CASES + UNION_CASES
     for name, T, v in cases:
         n += 1
         r = check_value(name, T, v)
